@@ -39,8 +39,9 @@ def gen_datainfo(rng, depth=2, allow_containers=True):
             di['unit'] = rng.choice(['K', 'mbar', '$/s', 'T'])
         return di
     if kind == 'int':
-        lo = rng.choice([-16777216, -5, 0, 1, 100, -(1 << 40)])
-        hi = lo + rng.choice([0, 1, 3, 255, 1 << 24, 1 << 41])
+        # 64 bit counters and identifiers: beyond 2**53 not every integer is a float
+        lo = rng.choice([-16777216, -5, 0, 1, 100, -(1 << 40), -(1 << 62) - 1, (1 << 53) + 1])
+        hi = lo + rng.choice([0, 1, 3, 255, 1 << 24, 1 << 41, (1 << 63) + 2])
         return {'type': 'int', 'min': lo, 'max': hi}
     if kind == 'scaled':
         scale = rng.choice([0.1, 0.01, 0.5, 2.0, 1e-3, 3.0])
@@ -136,8 +137,12 @@ def _prec(di, v):
     return max(abs(v) * di.get('relative_resolution', 1.2e-7), di.get('absolute_resolution', 0.0))
 
 
-def valid_wire(rng, di, full=True):
-    """a JSON payload that is certainly valid for the datainfo"""
+def valid_wire(rng, di, full=True, surrogates=False):
+    """a JSON payload that is certainly valid for the datainfo
+
+    surrogates: UTF8 strings may contain what bytes.decode(errors='surrogateescape') and os.fsdecode
+    give for a byte outside of the encoding - a str for Python and for StringType, "\\udcb5" in JSON
+    """
     t = di['type']
     if t == 'double':
         lo, hi = di.get('min', -FMAX), di.get('max', FMAX)
@@ -162,6 +167,8 @@ def valid_wire(rng, di, full=True):
         lo, hi = di.get('minchars', 0), min(di.get('maxchars', 30), 30)
         n = rng.randint(lo, max(lo, hi))
         alphabet = 'abcXYZ 019_-"\\/{}[]' + ('äπ€☃' if di.get('isUTF8') else '')
+        if surrogates and di.get('isUTF8') and rng.random() < 0.3:
+            alphabet += '\udcb5\udcff'
         return ''.join(rng.choice(alphabet) for _ in range(n))
     if t == 'blob':
         lo, hi = di.get('minbytes', 0), min(di['maxbytes'], 40)
@@ -170,15 +177,15 @@ def valid_wire(rng, di, full=True):
     if t == 'array':
         lo, hi = di.get('minlen', 0), min(di['maxlen'], 6)
         n = rng.randint(lo, max(lo, hi))
-        return [valid_wire(rng, di['members']) for _ in range(n)]
+        return [valid_wire(rng, di['members'], full, surrogates) for _ in range(n)]
     if t == 'tuple':
-        return [valid_wire(rng, m) for m in di['members']]
+        return [valid_wire(rng, m, full, surrogates) for m in di['members']]
     if t == 'struct':
         res = {}
         opt = _opt(di)
         for k, m in di['members'].items():
             if full or k not in opt or rng.random() < 0.6:
-                res[k] = valid_wire(rng, m)
+                res[k] = valid_wire(rng, m, full, surrogates)
         return res
     raise ValueError(t)
 
